@@ -2,7 +2,8 @@
 // usage: c14 <mode> <seed0> <nruns>
 //   mode alloc32 | alloc16 : random allocate/deallocate programs on 2-4 threads, atomic-level trace
 //                            (replayed in lock-step by lean/Drivers/C14.lean) + ownership oracle
-//   mode box               : DepositBox emplace / concurrent take / finish / stale-id take, oracle only
+//   mode box               : DepositBox emplace / concurrent take / finish / stale-id take programs, atomic-level
+//                            trace (replayed in lock-step against Babylon/IdAlloc/Box.lean) + single-taker oracles
 //   mode threadid          : ThreadId across real thread birth/death waves, oracle only
 // Output per run:  RUN <seed> W=<bits> mode=<mode>\n <trace lines> END
 // Oracle verdicts are harness events `ev ORACLE <kind> ...` in the trace.
@@ -125,45 +126,154 @@ void run_alloc(uint64_t seed, const char* mode) {
   vrt_dump(stdout);
 }
 
-// DepositBox: several threads race to take the same id; losers must fail; after finish and re-emplace
-// (slot reuse) the stale id must never match
+// DepositBox, atomic-level trace replayed in lock-step against Babylon/IdAlloc/Box.lean.
+// A fresh box per run (private constructor; the harness is built with -fno-access-control), pre-grown so
+// that every traced location has a stable address: head / nv / next (slot id allocator, W=32) and
+// ver<i> (the version word of slot i).  Random programs of emplace / take / finish on 2-4 threads:
+// takers race on the same fresh id, retry already-taken ids and stale ids whose slot was reused.
+// Events: `call emplace <x>` .. `ret emplace <v> <r>`; `call take <v> <r>` .. `ret take 1 <x>` | `ret take 0`;
+// `call finish <v>` .. `ret finish`.  x = numeric token, the stored item is the string "item-<x>".
+struct BoxPub {
+  VersionedValue<uint32_t> id;
+  unsigned token;
+  int winners = 0;           // takes of this id that returned an item
+  int returned = 0;          // takes of this id that returned at all
+  bool known_taken = false;  // a successful take has already returned
+};
+
 void run_box(uint64_t seed) {
-  auto& box = DepositBox<std::string>::instance();
+  constexpr unsigned NSLOT = 64;
+  DepositBox<std::string> box;
+  box._slot_id_allocator._free_next_value.ensure(NSLOT - 1);
+  box._slots.ensure(NSLOT - 1);
   vrt_unname_all();
+  auto& alloc = box._slot_id_allocator;
+  vrt_name(&alloc._free_head, sizeof(alloc._free_head), "head");
+  vrt_name(&alloc._next_value, sizeof(alloc._next_value), "nv");
+  vrt_name(&alloc._free_next_value.ensure(0), NSLOT * sizeof(uint32_t), "next");
+  for (unsigned i = 0; i < NSLOT; ++i) vrt_namef(&box._slots.ensure(i).version, sizeof(uint32_t), "ver%u", i);
   Rng rng(seed);
-  int rounds = 1 + (int)rng.below(4);
-  int takers = 2 + (int)rng.below(3);
-  vrt_begin(seed);
-  printf("RUN %lu W=32 mode=box threads=%d\n", (unsigned long)seed, takers);
-  std::vector<VersionedValue<uint32_t>> stale;
-  for (int r = 0; r < rounds; ++r) {
-    char buf[32];
-    snprintf(buf, sizeof buf, "item-%lu-%d", (unsigned long)seed, r);
-    std::string expect = buf;
-    auto id = box.emplace(expect);
-    int winners = 0;
-    bool finish_early = rng.below(2);
-    std::vector<std::thread> ts;
-    std::vector<VersionedValue<uint32_t>> stale_now = stale;
-    for (int t = 0; t < takers; ++t) {
-      ts.emplace_back([&, t] {
-        // stale ids from earlier rounds must never match, even when they name the reused slot
-        for (auto s : stale_now) {
-          if (box.take_released(s) != nullptr) vrt_event("ORACLE stale id %u@%u matched again", s.value, s.version);
-        }
-        auto* p = box.take_released(id);
-        if (p != nullptr) {
-          ++winners;
-          if (*p != expect) vrt_event("ORACLE taker got wrong item");
-          if (finish_early) box.finish_released(id);
-        }
-      });
+  int nthreads = 2 + (int)rng.below(3);
+  std::vector<BoxPub> published;                     // shared bookkeeping (plain accesses are not scheduling points)
+  std::vector<std::vector<size_t>> held(nthreads + 1);  // per thread: indices into published of the ids it took
+  unsigned next_token = 1;
+
+  auto do_emplace = [&]() {
+    unsigned x = next_token++;
+    std::string item = "item-" + std::to_string(x);
+    vrt_event("call emplace %u", x);
+    auto id = box.emplace(item);
+    vrt_event("ret emplace %u %u", (unsigned)id.value, (unsigned)id.version);
+    if (id.value >= NSLOT) {
+      vrt_event("ORACLE out-of-range slot %u", (unsigned)id.value);
+      return;
     }
-    for (auto& t : ts) t.join();
-    if (winners != 1) vrt_event("ORACLE %d takers obtained the item of one emplace", winners);
-    if (!finish_early) box.finish_released(id);
-    stale.push_back(id);
+    BoxPub p;
+    p.id = id;
+    p.token = x;
+    published.push_back(p);
+  };
+  // which published id to try: mostly the newest one nobody is known to have taken (so that the threads
+  // race on it), often a stale id whose slot has been handed out again, otherwise anything
+  auto pick = [&](Rng& r) -> size_t {
+    size_t n = published.size();
+    unsigned dice = (unsigned)r.below(100);
+    if (dice < 45) {
+      for (size_t k = n; k-- > 0;)
+        if (!published[k].known_taken) return k;
+    } else if (dice < 75) {
+      std::vector<size_t> reused, taken;
+      for (size_t k = 0; k < n; ++k) {
+        if (!published[k].known_taken) continue;
+        taken.push_back(k);
+        for (size_t j = k + 1; j < n; ++j)
+          if (published[j].id.value == published[k].id.value) {
+            reused.push_back(k);
+            break;
+          }
+      }
+      if (!reused.empty()) return reused[r.below(reused.size())];
+      if (!taken.empty()) return taken[r.below(taken.size())];
+    } else if (dice < 85) {
+      return n - 1 - r.below(n < 3 ? n : 3);
+    }
+    return r.below(n);
+  };
+  auto do_take = [&](std::vector<size_t>& mine, size_t k) -> bool {
+    auto id = published[k].id;
+    unsigned token = published[k].token;
+    bool stale_at_call = published[k].known_taken;
+    vrt_event("call take %u %u", (unsigned)id.value, (unsigned)id.version);
+    std::string* p = box.take_released(id);
+    if (p == nullptr) {
+      vrt_event("ret take 0");
+      published[k].returned++;
+      return false;
+    }
+    unsigned x = 4294967295u;
+    if (p->compare(0, 5, "item-") == 0 && p->size() > 5) x = (unsigned)strtoul(p->c_str() + 5, nullptr, 10);
+    vrt_event("ret take 1 %u", x);
+    if (x != token) vrt_event("ORACLE taker got wrong item %u for id %u@%u holding %u", x, (unsigned)id.value, (unsigned)id.version, token);
+    bool second = published[k].winners >= 1;
+    if (stale_at_call)
+      vrt_event("ORACLE stale id %u@%u matched again", (unsigned)id.value, (unsigned)id.version);
+    else if (second)
+      vrt_event("ORACLE id %u@%u obtained by two takers", (unsigned)id.value, (unsigned)id.version);
+    published[k].winners++;
+    published[k].returned++;
+    published[k].known_taken = true;
+    // a second winner does not finish: releasing the slot id twice corrupts the allocator's free list,
+    // and the violation has been reported already
+    if (second) return false;
+    mine.push_back(k);
+    return true;
+  };
+  auto do_finish = [&](std::vector<size_t>& mine, size_t j) {
+    auto id = published[mine[j]].id;
+    mine.erase(mine.begin() + j);
+    vrt_event("call finish %u", (unsigned)id.value);
+    box.finish_released(id);
+    vrt_event("ret finish");
+  };
+
+  vrt_begin(seed);
+  printf("RUN %lu W=32 mode=box threads=%d\n", (unsigned long)seed, nthreads);
+  // sequential prefix: a few emplace / take / finish rounds so that the free list, the versions and the
+  // set of stale ids are non-trivial when the threads start; the main thread may keep some items held
+  {
+    int rounds = (int)rng.below(5);
+    for (int i = 0; i < rounds; ++i) {
+      do_emplace();
+      if (!published.empty() && rng.below(100) < 70) do_take(held[0], pick(rng));
+      if (!held[0].empty() && rng.below(100) < 60) do_finish(held[0], rng.below(held[0].size()));
+    }
   }
+  std::vector<std::thread> ts;
+  for (int t = 1; t <= nthreads; ++t) {
+    uint64_t tseed = rng.next();
+    ts.emplace_back([&, t, tseed] {
+      Rng r(tseed);
+      auto& mine = held[t];
+      int nops = 3 + (int)r.below(6);
+      for (int i = 0; i < nops; ++i) {
+        unsigned dice = (unsigned)r.below(100);
+        if (!mine.empty() && dice < 25) {
+          do_finish(mine, r.below(mine.size()));
+        } else if (published.empty() || (dice >= 25 && dice < 50)) {
+          do_emplace();
+        } else {
+          if (do_take(mine, pick(r)) && r.below(100) < 40) do_finish(mine, mine.size() - 1);
+        }
+      }
+      while (!mine.empty()) do_finish(mine, r.below(mine.size()));
+    });
+  }
+  for (auto& t : ts) t.join();
+  while (!held[0].empty()) do_finish(held[0], held[0].size() - 1);
+  // every id somebody tried to take was obtained by exactly one taker
+  for (auto& p : published)
+    if (p.returned > 0 && p.winners != 1)
+      vrt_event("ORACLE %d takers obtained id %u@%u (%d takes returned)", p.winners, (unsigned)p.id.value, (unsigned)p.id.version, p.returned);
   vrt_event("stats steps %lu switches %lu", vrt_steps(), vrt_switches());
   vrt_end();
   vrt_dump(stdout);
